@@ -35,7 +35,9 @@ deriving Repr, DecidableEq
 
 def LState.empty : LState := ⟨[], [], []⟩
 
-/-- the two module-global lists `add` appends to and `pop` pops from (tied to the source by T1) -/
+/-- the two observables of `LoggingContextHandler` (`get_processing_stack()`,
+`get_context_variables()`) that `add` grows and `pop` restores (tied to the source by T1, which probes
+them through the public getters: how the handler stores them is not part of the tie) -/
 def stackFields : List Str := ["processing_stack".toList, "context_variables".toList]
 
 /-- `LoggingContextHandler.add` -/
@@ -284,7 +286,9 @@ def allTruthy (d : PyDict) : Bool := d.all (fun e => truthy e.2)
 
 /-! ## (e) export scratch state -/
 
-/-- scratch attributes `to_rows` resets on the flow / `clear_row_model` on each node (T1) -/
+/-- scratch attributes `to_rows` resets on the flow / `clear_row_model` on each node, by their names
+at the time of writing.  The names are documentation: T1 ties the BEHAVIOUR (`Gen.toRowsScratchReset`:
+junk in whatever attributes `to_rows` writes does not change its result; `Gen.toRowsClearsRowModels`). -/
 def scratchFields : List Str := ["visited_nodes".toList, "completed_nodes".toList, "rows".toList]
 def nodeScratchFields : List Str := ["row_models".toList]
 
